@@ -16,6 +16,15 @@
 (*   def f body trig       (trig = "" or the event that triggers f)                            *)
 (*   call f via | trycall f via tag      (via = "" or the name of an imported module object)   *)
 (*   task f                (task.create(f); last statement of a body)                          *)
+(*   sleep t               (task.sleep: the running evaluator suspends, others run)            *)
+(*   dcall f via cb        (depth-guarded call: `if _d > 0: f(_d - 1, cb)`; f may be the       *)
+(*                          function's own name (recursion), a function of another file, or    *)
+(*                          "_cb", the callback parameter; cb = "" | a name | "_cb")           *)
+(* Every function has two parameters: _d (depth budget; plain calls pass it on, dcall passes   *)
+(* _d - 1, entry points start with D0) and _cb (a function passed by the caller, or none).     *)
+(* Several evaluators exist at a time (file loads, trigger runs, created tasks): one runs,     *)
+(* the others are suspended in `sleepers` with their own context pointer and frame stack, so   *)
+(* two activations of one function interleave; the saved caller context lives in the FRAME.    *)
 (*   setctx name | getctx tag            (pyscript.set_global_ctx / get_global_ctx, top level) *)
 (* fl = named deviations:                                                                      *)
 (*   "rel-sibling-name"     (pinned tree) a relative import in a package member other than     *)
@@ -23,9 +32,13 @@
 (*   "callee-in-caller-ctx" a called function runs against the caller's globals  (mutant)      *)
 (*   "no-restore-on-raise"  the pointer is not restored when the callee raises   (mutant)      *)
 (*   "star-second-instance" from m import * executes m again                      (mutant)     *)
+(*   "scope-on-function"    the caller's context is saved per function object, not per         *)
+(*                          activation (one slot shared by all activations)       (mutant)     *)
 EXTENDS Naturals, Sequences, FiniteSets, TLC
 
 Undef == [k |-> "undef"]
+NoCb  == [k |-> "none"]
+D0    == 3                                              \* depth budget of an entry point
 Data(v) == [k |-> "data", v |-> v]
 Func(c, f, src) == [k |-> "func", ctx |-> c, name |-> f, src |-> src]     \* ctx: globals it runs against; src: file of its text
 Mod(c) == [k |-> "mod", ctx |-> c]
@@ -45,17 +58,18 @@ BodyOf(P, fv) == FindDef(P.files[fv.src].body, fv.name)
 
 \* ----------------------------------------------------------------------------- machine state
 \* S = [tabs, inst, ptr, stack, log, writes, queue, tasks, trigs, ok]
-Frame(code, saved, catch, own, kind, src) ==
-  [code |-> code, pc |-> 1, saved |-> saved, catch |-> catch, own |-> own, kind |-> kind, src |-> src, locals |-> <<>>]
+Frame(code, saved, catch, own, kind, src, d, cb, fkey) ==
+  [code |-> code, pc |-> 1, saved |-> saved, catch |-> catch, own |-> own, kind |-> kind, src |-> src, locals |-> <<>>,
+   d |-> d, cb |-> cb, fkey |-> fkey]
 Start(P) == [tabs |-> <<>>, inst |-> <<>>, ptr |-> "", stack |-> <<>>, log |-> <<>>, writes |-> {},
              queue |-> [i \in 1..Len(P.order) |-> [w |-> "file", c |-> P.order[i]]] \o [i \in 1..Len(P.events) |-> [w |-> "event", e |-> P.events[i]]],
-             tasks |-> <<>>, trigs |-> <<>>, ok |-> TRUE]
-Done(S) == S.stack = <<>> /\ S.queue = <<>> /\ S.tasks = <<>>
+             tasks |-> <<>>, trigs |-> <<>>, ok |-> TRUE, now |-> 0, sleepers |-> <<>>, slot |-> <<>>]
+Done(S) == S.stack = <<>> /\ S.queue = <<>> /\ S.tasks = <<>> /\ S.sleepers = <<>>
 Top(S) == S.stack[Len(S.stack)]
 Cur(S) == Top(S).code[Top(S).pc]
 Adv(S) == [S EXCEPT !.stack[Len(S.stack)].pc = @ + 1]
 Logv(S, tag, v) == [S EXCEPT !.log = Append(@, [tag |-> tag, v |-> v])]
-Lookup(S, x) == IF Has(Top(S).locals, x) THEN Top(S).locals[x] ELSE Get(Get(S.tabs, S.ptr), x)
+Lookup(S, x) == IF x = "_cb" THEN Top(S).cb ELSE IF Has(Top(S).locals, x) THEN Top(S).locals[x] ELSE Get(Get(S.tabs, S.ptr), x)
 Table(S, c) == IF Has(S.tabs, c) THEN S.tabs[c] ELSE <<>>
 \* a write into a global table: recorded with the context the running code belongs to
 WriteG(S, c, x, v, via) ==
@@ -63,19 +77,28 @@ WriteG(S, c, x, v, via) ==
             !.writes = @ \cup {[own |-> Top(S).own, into |-> c, via |-> via]}]
 Show(v) == IF v.k = "func" THEN [k |-> "func", ctx |-> v.ctx, name |-> v.name] ELSE v      \* observable part of a value
 
-\* enter a function: the evaluator switches to the DEFINING context of the function
-Enter(P, S, fv, catch, fl) ==
+\* enter a function: the evaluator switches to the DEFINING context of the function; the caller's context is
+\* kept in the new frame (per activation)
+Enter(P, S, fv, catch, fl, d, cb) ==
   LET to == IF "callee-in-caller-ctx" \in fl THEN S.ptr ELSE fv.ctx
-  IN [S EXCEPT !.stack = Append(@, Frame(BodyOf(P, fv), S.ptr, catch, fv.ctx, "call", fv.src)), !.ptr = to]
+  IN [S EXCEPT !.stack = Append(@, Frame(BodyOf(P, fv), S.ptr, catch, fv.ctx, "call", fv.src, d, cb, fv)), !.ptr = to,
+               !.slot = IF "scope-on-function" \in fl THEN Put(@, fv, IF S.ptr # fv.ctx THEN S.ptr ELSE "") ELSE @]
 \* leave the top frame normally: the caller's context is restored
-Leave(S) == [S EXCEPT !.stack = SubSeq(@, 1, Len(@) - 1), !.ptr = IF Len(S.stack) = 1 THEN "" ELSE Top(S).saved]
+Leave(S, fl) ==
+  LET f == Top(S)
+      last == Len(S.stack) = 1
+  IN IF "scope-on-function" \in fl /\ f.kind = "call"
+     THEN LET sv == IF Has(S.slot, f.fkey) THEN S.slot[f.fkey] ELSE "" IN
+          [S EXCEPT !.stack = SubSeq(@, 1, Len(@) - 1), !.ptr = IF last THEN "" ELSE IF sv # "" THEN sv ELSE @,
+                    !.slot = Put(@, f.fkey, "")]
+     ELSE [S EXCEPT !.stack = SubSeq(@, 1, Len(@) - 1), !.ptr = IF last THEN "" ELSE f.saved]
 \* an exception propagates: frames are popped (pointer restored at each) up to and including the first
 \* frame entered by a try-call; its caller logs `caught` and continues
 RECURSIVE Unwind(_, _)
 Unwind(S, fl) ==
   IF S.stack = <<>> THEN S
   ELSE LET f == Top(S)
-           S1 == IF "no-restore-on-raise" \in fl THEN [S EXCEPT !.stack = SubSeq(@, 1, Len(@) - 1)] ELSE Leave(S)
+           S1 == IF "no-restore-on-raise" \in fl THEN [S EXCEPT !.stack = SubSeq(@, 1, Len(@) - 1)] ELSE Leave(S, fl)
        IN IF f.catch # "" THEN Adv(Logv(S1, f.catch, Data("caught")))
           ELSE IF f.kind \in {"file", "module"} THEN [S1 EXCEPT !.ok = FALSE]          \* a file that raises is not generated
           ELSE Unwind(S1, fl)
@@ -98,7 +121,8 @@ Bind(S, s, c) ==                                   \* the import statement s bin
 Exec(P, S, fl) ==
   LET f == Top(S) IN
   IF f.pc > Len(f.code)
-  THEN (IF f.catch # "" THEN Adv(Logv(Leave(S), f.catch, Data("ok"))) ELSE IF f.kind = "module" THEN Leave(S) ELSE Adv(Leave(S)))
+  THEN (IF f.catch # "" THEN Adv(Logv(Leave(S, fl), f.catch, Data("ok"))) ELSE IF f.kind = "module" THEN Leave(S, fl)
+        ELSE IF Len(S.stack) = 1 THEN Leave(S, fl) ELSE Adv(Leave(S, fl)))
   ELSE LET s == Cur(S) IN
   CASE s.op = "set"  -> Adv(WriteG(S, S.ptr, s.x, Data(s.v), "plain"))
     [] s.op = "loc"  -> Adv([S EXCEPT !.stack[Len(S.stack)].locals = Put(@, s.x, Data(s.v))])
@@ -113,32 +137,61 @@ Exec(P, S, fl) ==
          LET holder == IF s.via = "" THEN Undef ELSE Lookup(S, s.via)
              fv == IF s.via = "" THEN Lookup(S, s.f) ELSE IF holder.k = "mod" THEN Get(Table(S, holder.ctx), s.f) ELSE Undef
              catch == IF s.op = "trycall" THEN s.tag ELSE ""
-         IN IF fv.k = "func" THEN Enter(P, S, fv, catch, fl)
+         IN IF fv.k = "func" THEN Enter(P, S, fv, catch, fl, f.d, NoCb)
             ELSE IF s.op = "trycall" THEN Adv(Logv(S, s.tag, Data("NameError")))       \* not visible here: rendered with except NameError
             ELSE Unwind(S, fl)
     [] s.op = "import" ->
          LET c == ImportCtx(s, S, fl)
              again == "star-second-instance" \in fl /\ s.form = "star" /\ Get(S.inst, c) = 1
          IN IF Has(S.inst, c) /\ ~again THEN Adv(Bind(S, s, c))                              \* lookup before load: the one instance
-            ELSE [S EXCEPT !.stack = Append(@, Frame(P.files[s.target].body, S.ptr, "", c, "module", s.target)), !.ptr = c,
+            ELSE [S EXCEPT !.stack = Append(@, Frame(P.files[s.target].body, S.ptr, "", c, "module", s.target, D0, NoCb, Undef)), !.ptr = c,
                            !.tabs = Put(@, c, <<>>), !.inst = Put(@, c, IF Has(S.inst, c) THEN S.inst[c] + 1 ELSE 1)]
-    [] s.op = "task"   -> LET fv == Lookup(S, s.f) IN Adv(IF fv.k = "func" THEN [S EXCEPT !.tasks = Append(@, fv)] ELSE S)
+    [] s.op = "task"   -> LET fv == Lookup(S, s.f) IN Adv(IF fv.k = "func" THEN [S EXCEPT !.tasks = Append(@, [fv |-> fv, from |-> S.ptr])] ELSE S)
+    [] s.op = "sleep"  -> LET S1 == Adv(S) IN                          \* suspend: another evaluator runs
+                          [S1 EXCEPT !.sleepers = Append(@, [ptr |-> S1.ptr, stack |-> S1.stack, wake |-> S.now + s.t]),
+                                     !.stack = <<>>, !.ptr = ""]
+    [] s.op = "dcall"  ->
+         IF f.d = 0 THEN Adv(S)
+         ELSE LET holder == IF s.via = "" THEN Undef ELSE Lookup(S, s.via)
+                  fv == IF s.via = "" THEN Lookup(S, s.f) ELSE IF holder.k = "mod" THEN Get(Table(S, holder.ctx), s.f) ELSE Undef
+                  cb == IF s.cb = "" THEN NoCb ELSE Lookup(S, s.cb)
+              IN IF s.f = "_cb" /\ fv = NoCb THEN Adv(S)                                   \* no callback was passed
+                 ELSE IF fv.k = "func" /\ cb.k \in {"func", "none"} THEN Enter(P, S, fv, "", fl, f.d - 1, cb)
+                 ELSE Unwind(S, fl)
     [] s.op = "setctx" -> Adv([S EXCEPT !.ptr = s.name, !.stack[Len(S.stack)].own = s.name])
     [] s.op = "getctx" -> Adv(Logv(S, s.tag, Data(S.ptr)))
 
-\* when no evaluator runs: created tasks first (in order), then the next file to load / event to fire
-Dispatch(P, S, fl) ==
+\* when no evaluator runs: created tasks first (in order); then a suspended evaluator (index i of `sleepers`;
+\* the acceptor resumes the one that wakes first, the state machine any of them); then the next file to load;
+\* finally all events are fired in one burst (every triggered function becomes an evaluator)
+StartFrame(P, fv) == Frame(BodyOf(P, fv), "", "", fv.ctx, "call", fv.src, D0, NoCb, fv)
+RECURSIVE Fire(_, _, _)
+Fire(P, S, q) ==
+  IF q = <<>> THEN S
+  ELSE LET w == Head(q) IN
+       IF w.w = "event" /\ Has(S.trigs, w.e)
+       THEN Fire(P, [S EXCEPT !.sleepers = Append(@, [ptr |-> S.trigs[w.e].ctx, stack |-> <<StartFrame(P, S.trigs[w.e])>>, wake |-> S.now])], Tail(q))
+       ELSE Fire(P, S, Tail(q))
+FirstAwake(S) == CHOOSE i \in 1..Len(S.sleepers) : \A j \in 1..Len(S.sleepers) :
+                   S.sleepers[i].wake < S.sleepers[j].wake \/ (S.sleepers[i].wake = S.sleepers[j].wake /\ i <= j)
+Resume(S, i) ==
+  LET e == S.sleepers[i] IN
+  [S EXCEPT !.ptr = e.ptr, !.stack = e.stack, !.now = IF e.wake > S.now THEN e.wake ELSE S.now,
+            !.sleepers = SubSeq(@, 1, i - 1) \o SubSeq(@, i + 1, Len(@))]
+Dispatch(P, S, fl, i) ==
   IF S.tasks # <<>>
-  THEN LET fv == Head(S.tasks) IN
-       [S EXCEPT !.tasks = Tail(@), !.stack = <<Frame(BodyOf(P, fv), "", "", fv.ctx, "call", fv.src)>>, !.ptr = fv.ctx]
-  ELSE LET w == Head(S.queue)  S1 == [S EXCEPT !.queue = Tail(@)] IN
+  THEN LET t == Head(S.tasks)                \* a new evaluator created in the creator's context calls the function
+           S1 == [S EXCEPT !.tasks = Tail(@), !.ptr = t.from]
+       IN [Enter(P, S1, t.fv, "", fl, D0, NoCb) EXCEPT !.stack[1].saved = ""]
+  ELSE IF S.sleepers # <<>> THEN Resume(S, i)
+  ELSE LET w == Head(S.queue) IN
        IF w.w = "file"
-       THEN [S1 EXCEPT !.stack = <<Frame(P.files[w.c].body, "", "", w.c, "file", w.c)>>, !.ptr = w.c,
-                       !.tabs = Put(@, w.c, <<>>), !.inst = Put(@, w.c, 1)]
-       ELSE IF Has(S.trigs, w.e)
-            THEN LET fv == S.trigs[w.e] IN [S1 EXCEPT !.stack = <<Frame(BodyOf(P, fv), "", "", fv.ctx, "call", fv.src)>>, !.ptr = fv.ctx]
-            ELSE S1
-Step(P, S, fl) == IF S.stack = <<>> THEN Dispatch(P, S, fl) ELSE Exec(P, S, fl)
+       THEN [S EXCEPT !.queue = Tail(@), !.stack = <<Frame(P.files[w.c].body, "", "", w.c, "file", w.c, D0, NoCb, Undef)>>, !.ptr = w.c,
+                      !.tabs = Put(@, w.c, <<>>), !.inst = Put(@, w.c, 1)]
+       ELSE [Fire(P, S, S.queue) EXCEPT !.queue = <<>>]
+StepPick(P, S, fl, i) == IF S.stack = <<>> THEN Dispatch(P, S, fl, i) ELSE Exec(P, S, fl)
+Step(P, S, fl) == StepPick(P, S, fl, IF S.sleepers = <<>> THEN 0 ELSE FirstAwake(S))
+Choices(S) == IF S.stack = <<>> /\ S.tasks = <<>> /\ S.sleepers # <<>> THEN 1..Len(S.sleepers) ELSE {0}
 
 RECURSIVE RunAll(_, _, _, _)
 RunAll(P, S, fl, fuel) == IF Done(S) \/ fuel = 0 THEN S ELSE RunAll(P, Step(P, S, fl), fl, fuel - 1)
@@ -150,7 +203,9 @@ RunAll(P, S, fl, fuel) == IF Done(S) \/ fuel = 0 THEN S ELSE RunAll(P, Step(P, S
 WritesOnlyToOwnGlobals(S) == \A w \in S.writes : w.via \in {"plain", "import"} => w.into = w.own
 \* whenever code runs, the evaluator points at the context that code belongs to: in particular the caller's
 \* context is back after every exit of a callee, normal or by exception
-PointerRestoredOnEveryExit(S) == S.stack # <<>> => S.ptr = Top(S).own
+PointerRestoredOnEveryExit(S) ==
+  /\ S.stack # <<>> => S.ptr = Top(S).own
+  /\ \A i \in 1..Len(S.sleepers) : S.sleepers[i].ptr = S.sleepers[i].stack[Len(S.sleepers[i].stack)].own      \* suspended evaluators too
 \* however many importers and import forms: every file was executed at most once
 OneInstancePerModule(S) == \A c \in DOMAIN S.inst : S.inst[c] <= 1
 \* ... and under one name: no two contexts run the text of the same file
